@@ -336,3 +336,28 @@ PROPERTY_META["C14"] = {"assumptions": ["ctl.c over mocks of xcm_attr_get/xcm_at
                                         "protocol constants scaled (see obligation descriptions): the claim is for the same source text with smaller tables; the driver checks each substitution hits exactly one #define",
                                         "kernel stubs: recv returns a full-size datagram of arbitrary bytes, a short one, 0, EAGAIN or an error; send all / EAGAIN / EPIPE"],
                         "trusted_base": [], "bounds": "<= 2 sessions, one event per step, scaled tables", "outside": "the xcmctl tool's own parsing; real table sizes"}
+
+# --------------------------------------------------------------------------
+# xpoll.c over the EPOLL ghost set (C04, C16, C08)
+# --------------------------------------------------------------------------
+XP = {"FD_ADD": "xpoll_fd_reg_add", "FD_MOD": "xpoll_fd_reg_mod", "FD_DEL": "xpoll_fd_reg_del", "BELL_ADD": "xpoll_bell_reg_add", "BELL_MOD": "xpoll_bell_reg_mod", "BELL_DEL": "xpoll_bell_reg_del"}
+for op, fn in XP.items():
+    ob("xpoll." + op.lower(), "xpoll/xpoll_h.c", ["-DOP_" + op], ["C04", "C16", "C08"], unwind=34, unwindset=["ut_realloc.0:116"],
+       desc=fn + " from an arbitrary valid xpoll (tables of capacity <= 6, one growth step inside the bound): the kernel interest set mirrors the registrations, the shared eventfd is watched exactly while a bell rings, xcm_fd never changes")
+ob("xpoll.life", "xpoll/xpoll_h.c", ["-DOP_LIFE"], ["C08", "C16"], unwind=34, desc="xpoll_create with epoll_create1 failing at will; xpoll_destroy closes the epoll descriptor once and gives back a still-held eventfd reference (xcm_cleanup path)")
+
+# --------------------------------------------------------------------------
+# C15: lock discipline of the mutex-protected process-wide state (poisoning stubs)
+# --------------------------------------------------------------------------
+ob("locks.active_fd.get", "locks/afd_h.c", ["-DOP_GET"], ["C15", "C08", "C04"], unwind=6,
+   desc="active_fd_get from an arbitrary pool of <= 2 eventfds (1..100 users each): the shared list is only touched while the mutex is held (poisoned outside), lock/unlock balance on every path, INV re-established at unlock; sharing up to 100 users, then a new eventfd")
+ob("locks.active_fd.put", "locks/afd_h.c", ["-DOP_PUT"], ["C15", "C08"], unwind=6,
+   desc="active_fd_put: same discipline; the eventfd is closed exactly when its last user lets go")
+ob("locks.sock_id", "tp/tp.c", ["-DOP_SOCKID"], ["C15"], unwind=6, desc="get_next_sock_id: distinct ids, counter touched only inside its critical section")
+PROPERTY_META["C15"] = {
+    "level": "other",
+    "level_text": "Lock discipline only: sequential bounded model checking (CBMC) of the real active_fd.c / xcm_tp.c:get_next_sock_id / ctx_store.c with poisoning mutex stubs proves that the mutex-protected process-wide structures are accessed only inside balanced critical sections and that their invariant holds at every unlock (lockset argument => no data race on them). True interleavings, the __atomic flags, __thread buffers and OpenSSL/c-ares initialisation are NOT decided (CBMC 6.11 aborts on this code with threads; goto-instrument --race-check crashes), see DESIGN.md.",
+    "explanation": "sequential CBMC runs with poisoning mutex stubs over the real code; covers the three mutex-protected global structures; does not explore thread interleavings",
+    "technique": "solver-based bounded symbolic execution (CBMC) with lock-poisoning stubs (lockset discipline); no interleaving exploration",
+    "assumptions": ["lockset argument: state that is only accessed while its mutex is held, with the invariant re-established at each unlock, is race-free", "pthread_mutex_lock/unlock are the only synchronisation on these structures"],
+    "trusted_base": []}
